@@ -346,6 +346,20 @@ def finish(chk, ob, br, trusted_base, assumptions, rule, checker_cmd):
             chk.diverge("trust anchors in force = RP-supplied roots + the built-in roots (pinned constants of webauthn.helpers.known_root_certs)",
                         f"a certificate store built during verification held an anchor that is neither: {x['subject']} sha256={x['fingerprint']}", x)
         del _impl.FOREIGN_ANCHORS[:]
+        # value semantics of everything that was returned during this check: a result still reads as it did when it was handed out, whatever calls came later
+        stale = 0
+        for r, pr, line in _impl.KEPT:
+            try:
+                now_line = "OK " + pr(r)
+            except Exception as e:
+                now_line = "OK <unprintable result: %s %s>" % (type(e).__name__, e)
+            chk.evals += 1
+            if now_line != line and stale < 3:
+                stale += 1
+                chk.violation("a result returned earlier reads differently after later calls (results share state with later calls or with the caller's buffers)",
+                              f"stale-result {type(r).__name__}", {"result_type": type(r).__name__, "when_returned": line[:600], "at_the_end": now_line[:600]})
+        chk.notes.append({"kept_results_rechecked": len(_impl.KEPT)})
+        del _impl.KEPT[:]
     except Exception:
         pass
     known = [k for k in load_known() if k.get("property") == pid and k.get("status") == "known"]
@@ -450,6 +464,46 @@ ENVIRONMENTS = {
     "python -bb (bytes/str comparisons are errors)": {"@args": "-bb"},
     "python -X dev, -X utf8, PYTHONINTMAXSTRDIGITS=640": {"@args": "-X dev -X utf8", "PYTHONINTMAXSTRDIGITS": "640"},
 }
+
+
+# text that some normalisation, case mapping or codec would change (NFC / NFKC / casefold / IDNA / punycode / width): to this library every string is a
+# sequence of code points and every text field comes back as it went in
+TRICKY_STRINGS = ["cafe\u0301", "Zoe\u0308", "n\u0303", "\u1100\u1161\u11a8", "\uf900", "\u212b", "\u2126", "\u212a", "\ufb01", "\uff21\uff22", "\u0130stanbul", "I\u0307", "\u017f", "\u00df",
+                  "xn--bcher-kva.example", "XN--BCHER-KVA.example", "b\u00fccher.example", "\u03c2\u03c3", "\u1e9e", "a\u200db", "a\u00adb", "\u202eabc", "e\u0301\u0323", "\u0958", "\u0344",
+                  "\U0001f469\u200d\U0001f4bb", "\u0000", "a\u0000b", "\ud55c", "\u00c5ngstr\u00f6m", "A\u030angstro\u0308m"]
+
+
+def interleaved(run_a, run_b, repo=None, max_events=3000, every=1):
+    """Deterministic two-thread schedule exploration at line granularity: run_a() executes on the calling thread under a trace hook which, at every
+    `line` event inside /repo's webauthn package (every `every`-th one), lets ANOTHER thread execute run_b() to completion before run_a continues.
+    -> (outcome of run_a, list of outcomes of run_b, number of switch points).  Anything run_a keeps in shared mutable state between two of its own
+    lines is thereby exposed to a complete foreign call in between - the schedules a 16-thread stress run hits only by luck."""
+    import threading
+    prefix = os.path.join(repo or os.environ.get("VERIF_REPO", "/repo"), "webauthn") + os.sep
+    outs_b, state = [], {"busy": False, "n": 0, "k": 0}
+
+    def local_trace(frame, event, arg):
+        if event == "line" and not state["busy"] and state["n"] < max_events:
+            state["k"] += 1
+            if state["k"] % every == 0:
+                state["busy"] = True
+                state["n"] += 1
+                t = threading.Thread(target=lambda: outs_b.append(run_b()))
+                t.start()
+                t.join()
+                state["busy"] = False
+        return local_trace
+
+    def global_trace(frame, event, arg):
+        return local_trace if frame.f_code.co_filename.startswith(prefix) else None
+
+    old = sys.gettrace()
+    sys.settrace(global_trace)
+    try:
+        a = run_a()
+    finally:
+        sys.settrace(old)
+    return a, outs_b, state["n"]
 
 
 class GlobalStateSpy:
